@@ -57,6 +57,8 @@ type Config struct {
 	Deadline     time.Duration     // wall clock budget (0 = none)
 	Sched        string            // all | rot | first   (policy for schedule sites)
 	SchedFuncs   []string          // function-name substrings whose map ranges are schedule sites under Sched; others use SchedOther
+	SchedScope   []string          // if set: schedule sites only while a function whose name contains one of these is on the stack
+	SchedDeps    []string          // function-name substrings in dependencies whose map ranges are schedule sites as well
 	SchedOther   string            // policy for remaining repo sites (default first)
 	Prune        bool              // state-hash pruning at schedule choice points
 	Params       map[string]int    // harness parameters (zzverif.Param)
@@ -191,6 +193,7 @@ type pstate struct {
 	depth  int
 	symIDs map[*symS]int
 	ulid   int
+	ulidDesc bool
 	frozen map[*value]string
 	frozenMaps map[uintptr]string
 	classes map[string]string
